@@ -8,6 +8,7 @@ class C11(Check):
     id = 'C11'
     module = 'Xrl.Props.C11'
     namespace = 'Xrl.C11'
+    extra_modules = [('Xrl.Props.C11b', 'Xrl.C11')]
     functions = ['AugerYield_prdata', 'AugerYield2_prdata', 'AugerRate_prdata', 'AugerRate', 'AugerYield']
     assumptions = ['the run-time tables Auger_Yields / Auger_Rates are the %.10E printing of the values the build-time functions compute: '
                    'checked on every run for all 121 x (9 + 996) cells (exhaustive), not proved',
@@ -122,9 +123,55 @@ class C11(Check):
             elif v == 0:
                 ok = pa['kind'] == 'ok' and pa['vals'][0] == 0 and pa['slot'].startswith('F')
                 if not ok: viol.append(dict(key=pl, got=pub[pl], expected='fails (the data file records no rate for %s)' % nm, what='Auger rate vs the record of that transition in the data file'))
-        stats = dict(datafile_records_checked=ndat, rule='exhaustive: Z in [-2,123] x shells [-2,10] x Auger macros [-3,999]: real pr_data.c function vs specification on the raw tables, and public AugerYield/AugerRate vs %.10E of the specification; non-trivial = non-zero derived values',
+        # ---- "each lies in [0,1]" and "the three decay channels partition unity", on the PUBLIC functions of the run-time library:
+        #      AugerYield + FluorYield + sum of the Coster-Kronig probabilities leaving the shell = 1 (transitions selected by NAME:
+        #      F<X>[P]<i><j>_TRANS leaves sub-shell X<i>), every successful AugerRate in (0, 1]
+        shell_macro = {n_[:-6]: v_['value'] for n_, v_ in hv.items() if _re.fullmatch(r'(K|[LM]\d)_SHELL', n_) and v_['kind'] == 'I'}
+        ck_from = {}
+        for n_, v_ in hv.items():
+            m_ = _re.fullmatch(r'F([LM])P?(\d)(\d)_TRANS', n_)
+            if m_ and v_['kind'] == 'I': ck_from.setdefault(m_.group(1) + m_.group(2), []).append(v_['value'])
+        ql = []
+        for Z in range(1, 121):
+            for nm, sm in shell_macro.items():
+                ql.append('FluorYield %d %d N' % (Z, sm))
+                for tr in ck_from.get(nm, []): ql.append('CosKronTransProb %d %d N' % (Z, tr))
+        qa = dict(zip(ql, [core.parse_answer(o) for o in ctx.run_c(ql)]))
+        npart = 0; nrange = 0; worst = 0.0
+        for Z in range(1, 121):
+            for nm, sm in shell_macro.items():
+                pl = 'AugerYield %d %d E' % (Z, sm)
+                pa = core.parse_answer(pub[pl])
+                if not (pa['kind'] == 'ok' and pa['slot'] == 'E'): continue
+                v = pa['vals'][0]; w_ = qa['FluorYield %d %d N' % (Z, sm)]['vals'][0]
+                cks = [qa['CosKronTransProb %d %d N' % (Z, tr)]['vals'][0] for tr in ck_from.get(nm, [])]
+                npart += 1
+                bad = None
+                if not (0 < v <= 1): bad = 'Auger yield outside (0, 1]'
+                elif not (0 < w_ <= 1): bad = 'fluorescence yield %r outside (0, 1] where the Auger yield is defined' % w_
+                elif any(not (0 <= f_ <= 1) for f_ in cks): bad = 'Coster-Kronig probability outside [0, 1]: %r' % cks
+                else:
+                    dev = abs(v + w_ + sum(cks) - 1); worst = max(worst, dev)
+                    if dev > 1e-9: bad = 'channels do not partition unity: Auger %r + fluorescence %r + Coster-Kronig %r = %r' % (v, w_, cks, v + w_ + sum(cks))
+                if bad: viol.append(dict(key=pl, got=pub[pl], expected='in (0,1], and AugerYield + FluorYield + sum CosKronTransProb = 1', what=bad))
+        for pl, o in pub.items():
+            if not pl.startswith('AugerRate'): continue
+            pa = core.parse_answer(o)
+            if pa['kind'] == 'ok' and pa['slot'] == 'E':
+                nrange += 1
+                if not (0 < pa['vals'][0] <= 1 + 1e-9):
+                    viol.append(dict(key=pl, got=o, expected='a rate in (0, 1]', what='Auger rate (a share of the shell\'s net non-radiative total) outside (0, 1]'))
+        # data hypotheses of Props/C11b.lean, executed on the run-time and on the raw build-time tables
+        try:
+            inv = ctx.run_model(['spec.augerInputsBad']) + ctx.run_model(['spec.augerInputsBad', 'spec.augerRateBad ' + core.hx(1e-12)], dump='pdump')
+            for nm, o in zip(('augerInputsBad', 'augerInputsBad@raw', 'augerRateBad(1e-12)@raw'), inv):
+                if o.strip() != 'list []':
+                    viol.append(dict(key='spec.' + nm, got=o[:200], expected='list []', what='data hypothesis of C11b (auger_channels_raw / auger_rate_range) fails on the tables built from the working tree'))
+        except core.BuildError:
+            pass
+        stats = dict(partition_cases=npart, rate_range_cases=nrange, partition_worst_dev=worst, datafile_records_checked=ndat, rule='exhaustive: Z in [-2,123] x shells [-2,10] x Auger macros [-3,999]: real pr_data.c function vs specification on the raw tables, and public AugerYield/AugerRate vs %.10E of the specification; non-trivial = non-zero derived values',
                      distinct_nontrivial=nontriv, exhaustive=True,
                      samples=[dict(call=keys[i], impl=self._prd[keys[i]], expected=e[i]) for i in (40, len(keys) // 2, len(keys) - 5)])
-        return len(keys) * 2 + ndat, viol, stats
+        return len(keys) * 2 + ndat + npart + nrange, viol, stats
 
 CHECK = C11()
